@@ -139,6 +139,8 @@ def oracle(ctx, case, real, rt):
                     return
         else:
             # not delivered: the next writes must be >= 1 eliot:traceback then exactly one eliot:serialization_failure
+            # (further tracebacks can be about exception extractors that failed while the first one was written; that the
+            # message's own serializers account for one failure only is checked after the loop)
             failures += 1
             j = i
             ntb = 0
@@ -173,6 +175,11 @@ def oracle(ctx, case, real, rt):
                                           "that is current once the block is left (%s)" % (wu, wl, before), case)
                             return
             i = j + 1
+    if rt.ser_failed > failures:
+        # serialization of a message stops at its first failing field: one failed write, one failing call, one traceback about it
+        ctx.violation("%d serializer calls raised but only %d typed messages were withheld: a message went on serializing after a field had "
+                      "failed (one eliot:traceback per failing field instead of exactly one per message)" % (rt.ser_failed, failures), case)
+        return
     ctx.count("typed_delivered", n=typed_delivered)
     ctx.count("serializer_failures", n=failures)
     real["_typed"] = (typed_delivered, failures)
